@@ -13,7 +13,7 @@ import (
 func init() {
 	register("C11", PropCheck{
 		Title:      "Sessions and data types never see each other's stored data",
-		Explain:    "Structural necessary conditions of an injective storage-key encoding: (R1) no back end re-slices a LookupKey Default/Translation so that its leading type byte is dropped before it reaches a storage primitive; (R2) Put and Get of every back end derive their keys from DbBase.ToKey applied to the caller's key (no hand-built keys); (R3) where the key builder joins the session id and the key with a separator byte, the session id is sanitised against (or escaped for) that byte; (R4) the string the filesystem back end joins to its directory is an encoding that cannot contain path separators, or is checked for them; (R5) between ToKey's result and the storage primitive the filesystem back end applies only injective transformations (string conversion, the type-byte offset, hex/base64 encoding, path.Join with the directory) - any other function applied to key-derived data is reported, and so is a slice expression that cuts key-derived bytes at an upper bound (truncation; added after seeded change C11-I); (R6) the sticky context setters (SetSession/SetPrefix/SetLanguage) store their argument on every path, so no operation runs with a previous caller's session or type; (R8) in the filesystem back end every file opened for writing is the result of os.CreateTemp - a name unique to the write, never a fixed or shared scratch name that two stores on one directory could both write (added after seeded change C11-E); (R9) the bytes put in front of the caller's key by the session-key builder derive only from the store's own session field, through helpers and parameters at every call site - never from the request context (added after C11-F); (R10) DecodeKey strips and verifies the session prefix on every success path, whatever data type is selected (listings rely on it to stop at the session boundary; added after seeded change C11-G); (R11) the bytes Persister.Serialize returns are the encoder's own fresh result, not a view of a buffer the persister keeps - a store that keeps the caller's slice (the memory back end) would see a later session's snapshot under an earlier session's key (added after C11-H). (R12) every store lookup of the db-backed resource passes SetPrefix on every path from the entry of the exported method (directly or through a helper that calls it on every path): no remembered 'current type' (added after seeded change C11-J). (R13) the key argument of every Persister.Save/Load in the engine is the SessionId field itself (added after seeded change C11-K). (R14) every key a listing hands out (first entry given to Dumper.WithFirst, non-nil keys returned by the iterator function; fs and postgres) is the result of DecodeKey - DbBase.DecodeKey, or a back end's wrapper in which every success return passes it - looking through results of static helpers: the only place that refuses foreign rows a range/prefix query or directory scan delivers (added after seeded change C11-N).",
+		Explain:    "Structural necessary conditions of an injective storage-key encoding: (R1) no back end re-slices a LookupKey Default/Translation so that its leading type byte is dropped before it reaches a storage primitive; (R2) Put and Get of every back end derive their keys from DbBase.ToKey applied to the caller's key (no hand-built keys); (R3) where the key builder joins the session id and the key with a separator byte, the session id is sanitised against (or escaped for) that byte; (R4) the string the filesystem back end joins to its directory is an encoding that cannot contain path separators, or is checked for them; (R5) between ToKey's result and the storage primitive the filesystem back end applies only injective transformations (string conversion, the type-byte offset, hex/base64 encoding, path.Join with the directory) - any other function applied to key-derived data is reported, and so is a slice expression that cuts key-derived bytes at an upper bound (truncation; added after seeded change C11-I); (R6) the sticky context setters (SetSession/SetPrefix/SetLanguage) store their argument on every path, so no operation runs with a previous caller's session or type; (R8) in the filesystem back end every file opened for writing is the result of os.CreateTemp - a name unique to the write, never a fixed or shared scratch name that two stores on one directory could both write (added after seeded change C11-E); (R9) the bytes put in front of the caller's key by the session-key builder derive only from the store's own session field, through helpers and parameters at every call site - never from the request context (added after C11-F); (R10) DecodeKey strips and verifies the session prefix on every success path, whatever data type is selected (listings rely on it to stop at the session boundary; added after seeded change C11-G); (R11) the bytes Persister.Serialize returns are the encoder's own fresh result, not a view of a buffer the persister keeps - a store that keeps the caller's slice (the memory back end) would see a later session's snapshot under an earlier session's key (added after C11-H). (R12) every store lookup of the db-backed resource passes SetPrefix on every path from the entry of the exported method (directly or through a helper that calls it on every path): no remembered 'current type' (added after seeded change C11-J). (R13) the key argument of every Persister.Save/Load in the engine is the SessionId field itself (added after seeded change C11-K). (R14) every key a listing hands out (first entry given to Dumper.WithFirst, non-nil keys returned by the iterator function; fs and postgres) is the result of DecodeKey - DbBase.DecodeKey, or a back end's wrapper in which every success return passes it - looking through results of static helpers: the only place that refuses foreign rows a range/prefix query or directory scan delivers (added after seeded change C11-N). (R15) Persister.Load hands Deserialize the result of db.Db.Get made in that call - nothing remembered from an earlier Save, which a record key alone does not tie to the session selected on the store handle (added after seeded change C11-Q).",
 		NotDecided: "injectivity of the encoding over all strings as such; Postgres collation and BYTEA comparison; what applications store under USERDATA.",
 		Run:        runC11,
 	})
@@ -57,6 +57,7 @@ func runC11(w *core.World, r *core.Report) {
 	r.Rule("R6", "context setters store their argument on every path")
 	r.Rule("R7", "the persister selects its session on the store unconditionally (WithSession, or every Save and Load)")
 	r.Rule("R8", "fs: every file opened for writing is an os.CreateTemp result (a name unique to the write, never a fixed or shared scratch name)")
+	r.Rule("R15", "Persister.Load decodes the bytes db.Db.Get returned in that call (nothing remembered from an earlier Save)")
 	r.Rule("R14", "every key a listing (fs, postgres) hands out is the result of DecodeKey, which checks the session prefix")
 	r.Rule("R13", "the engine saves and loads a session under Config.SessionId itself")
 	r.Rule("R12", "every store lookup of the db-backed resource selects its own data type first, unconditionally")
@@ -363,6 +364,7 @@ func runC11(w *core.World, r *core.Report) {
 	checkResourceSelectsType(w, r, "R12")
 	checkPersistKeyIsSessionId(w, r, "R13")
 	checkListedKeysPassDecodeKey(w, r, "R14")
+	checkLoadReadsTheStore(w, r, "R15", "a session is loaded from bytes the persister kept from an earlier save instead of from the store: the record key does not identify the session selected on the store handle, so one session is handed another session's state and cache: ")
 }
 
 // checkUniqueTempFiles (C11 R8, C19 R4): in the filesystem back end every file opened for writing is
